@@ -13,7 +13,7 @@ from typing import Any, Callable, Dict, List, Optional, Tuple
 
 from . import terms as T
 from .progdb import AnalysisError, Module, ProgramDB
-from .values import (ClassRef, Each, EnumRef, ExtMod, Frame, FuncRef, GroupBy, Obj, PyTuple, Ser, to_term)
+from .values import (Columns, ClassRef, Each, EnumRef, ExtMod, Frame, FuncRef, GroupBy, Obj, PyTuple, Ser, to_term)
 
 EXT_MODULES = {"pd": "pd", "pandas": "pd", "np": "np", "numpy": "np", "math": "math", "nx": "nx", "networkx": "nx",
                "re": "re", "os": "os", "json": "json", "gzip": "gzip", "time": "time", "sys": "sys", "logging": "logging",
@@ -493,6 +493,9 @@ class Interp:
             return sorted(it, key=repr)
         if isinstance(it, dict):
             return list(it.keys())
+        if isinstance(it, Columns):
+            n = it.names()
+            return list(n) if n is not None else None
         return None
 
     def st_Assign(self, st):
